@@ -18,7 +18,9 @@ BATCH = 130
 SHRINK_BUDGET = 200
 RULE = ("write histories on a fresh temp directory: creation time (aligned / unaligned / just before midnight UTC), size limit from "
         "{1..100000} and file-count limit from {1..6} so that 0..12 size rolls, day rolls and removals happen; per-second batches of 1-4 items "
-        "(second steps 0,0,1,1,2,5; occasionally backwards, ts 0, empty batch), resource names from a small pool (ASCII, UTF-8, one with '|'), "
+        "(second steps 0,0,1,1,2,5; occasionally backwards, ts 0, empty batch), resource names from a small pool (ASCII, UTF-8, one with '|') and, one item in eight, from a pool of awkward legal names "
+        "(printf verbs %d %s %% %! %[1]d, URL-encoded, backslashes, blanks, tab, CJK, emoji, ':' ',' '[' - written as H<hex> tokens where the op "
+        "line cannot carry them literally), "
         "counters boundary-heavy (0, 1, 2^32-1, 2^64-1, class +-2^31); one case in ten with resource names of 8000 .. 40000 bytes (token R<n>; line lengths exactly around the reader's 8192-byte buffer; "
         "single lines larger than the size limit), first / middle / last in a batch, found by name, by * and from-time, cuts around line ends and "
         "multiples of 8192; restarts of the writer on the same directory (log.reopen) at a later clock "
@@ -38,9 +40,25 @@ NAMES = ["a", "a", "b", "b", "svc", "/api/x", "r-1", "été", "q_q"]
 U64 = 2 ** 64 - 1
 
 
+# legal names that stress the formatter / the line format: printf verbs, backslashes, blanks, unicode, separators of the op language
+SPECIAL = ["%", "%d", "%s", "%%", "%!", "100%", "cpu>90%", "/a%20b%2Fc", "%v%+v", "%!d(MISSING)", "%[1]d", "%5.2f%%", "a\\b", "\\", "\\n",
+           "C:\\dir\\f", "a b", " lead", "trail ", "tab\tx", "名前/リソース", "🙂", "a:b", "a,b", "[x]", "=>", "x|y%d", "%|%", "é%s", "H41", "R7x"]
+
+
+def name_tok(name):
+    """the op-line token of a resource name: literal if it can stand in an op line and a result line, else H<hex>"""
+    bs = name.encode("utf-8")
+    safe = bs and all(b >= 33 and b != 127 and chr(b) not in ":,[]" for b in bs)
+    if safe and not (name[0] in "RH") and "=>" not in name:
+        return name
+    return "H" + bs.hex()
+
+
 def enc_len(res):
     if res.startswith("R") and res[1:].isdigit():      # token R<n>: the deterministic name of n bytes
         return int(res[1:])
+    if res.startswith("H") and len(res) % 2 == 1 and all(c in "0123456789abcdef" for c in res[1:]):
+        return (len(res) - 1) // 2                     # token H<hex>
     return len(res.encode("utf-8"))
 
 
@@ -99,7 +117,8 @@ def rand_num(rng, hi=U64):
 
 
 def rand_item(rng):
-    res = rng.choice(NAMES) if rng.random() < 0.97 else rng.choice(["x|y", ""])
+    x = rng.random()
+    res = rng.choice(NAMES) if x < 0.85 else (name_tok(rng.choice(SPECIAL)) if x < 0.97 else rng.choice(["x|y", ""]))
     return (res, rand_num(rng), rand_num(rng), rand_num(rng), rand_num(rng), rand_num(rng), rand_num(rng),
             rand_num(rng, 2 ** 32 - 1), rng.choice([0, 0, 0, 1, 2, -1, 2 ** 31 - 1, -2 ** 31]))
 
@@ -110,7 +129,7 @@ def rand_query(rng, sim, sid, now_sec):
     b = max(b, 1)
     if rng.random() < 0.7:
         e = rng.choice([b, b + 1000, b + 3000, secs[-1] * 1000 + 999, 10 ** 14, max(1, b - 1000)])
-        res = rng.choice(["*", "*", "a", "b", "svc", "nosuch", "été"])
+        res = rng.choice(["*", "*", "a", "b", "svc", "nosuch", "été", name_tok(rng.choice(SPECIAL)), name_tok(rng.choice(SPECIAL))])
         return f"log.find {sid} {b} {e} {res}"
     return f"log.from {sid} {b} {rng.choice([0, 1, 2, 3, 5, 8, 100, 100000])}"
 
